@@ -68,14 +68,22 @@ fn scenario<C: MlsConfig>(rng: &mut Rng, mk: &dyn Fn(&Setup, &Handles, mls_rs::i
         return;
     }
     // the external sender observes the group
-    let ext = ExternalClient::builder()
-        .crypto_provider(RustCryptoProvider::default())
-        .identity_provider(BasicIdentityProvider)
-        .signer(ext_sk, ext_id.clone())
-        .build();
+    // half of the external senders run in the documented stateless mode `cache_proposals(false)`: proposals RECEIVED from others
+    // are handed back by the application (`insert_proposal`), the ones it ISSUES itself must be remembered by `propose` whatever the
+    // flag says (`propose` returns only the message, the application has nothing to insert) — C16: the observer follows every
+    // commit the members accept, including commits over its own proposals
+    let manual_cache = Rng(rng.0 ^ 0xc16f_c16f).below(2) == 1;
+    out.cover.insert(format!("external-sender:cache_proposals={}", !manual_cache as u8));
+    let ext = {
+        let b = ExternalClient::builder()
+            .crypto_provider(RustCryptoProvider::default())
+            .identity_provider(BasicIdentityProvider)
+            .signer(ext_sk, ext_id.clone());
+        if manual_cache { b.cache_proposals(false).build() } else { b.build() }
+    };
     let gi = w.group(0).group_info_message_allowing_ext_commit(true).unwrap();
     let Ok(mut eg) = ext.observe_group(gi, None, None) else {
-        out.fails.push("setup: external sender cannot observe the group".into());
+        out.fails.push("[C16] setup: external sender cannot observe the group".into());
         return;
     };
     // a member's Update, relayed by the external sender as an external proposal
@@ -83,7 +91,12 @@ fn scenario<C: MlsConfig>(rng: &mut Rng, mk: &dyn Fn(&Setup, &Handles, mls_rs::i
     let (_, upd) = w.with_group(updater, |g| g.propose_update(vec![]));
     let Some(upd) = upd else { return };
     let relayed: Option<Proposal> = match eg.process_incoming_message(upd.clone()) {
-        Ok(ExternalReceivedMessage::Proposal(p)) => Some(p.proposal),
+        Ok(ExternalReceivedMessage::Proposal(p)) => {
+            if manual_cache {
+                eg.insert_proposal(p.clone().cached_proposal());
+            }
+            Some(p.proposal)
+        }
         _ => None,
     };
     let mut offenders: Vec<(&str, MlsMessage)> = vec![];
@@ -103,7 +116,7 @@ fn scenario<C: MlsConfig>(rng: &mut Rng, mk: &dyn Fn(&Setup, &Handles, mls_rs::i
                 allowed.push(("remove", m));
                 removes = true;
             }
-            Err(e) => out.fails.push(format!("the external sender cannot propose a Remove: {}", err_class(&e))),
+            Err(e) => out.fails.push(format!("[C16] the external sender cannot propose a Remove: {}", err_class(&e))),
         }
     }
     let with_member_update = rng.chance(1, 2);
@@ -123,7 +136,7 @@ fn scenario<C: MlsConfig>(rng: &mut Rng, mk: &dyn Fn(&Setup, &Handles, mls_rs::i
                 allowed.push(("add", m));
                 outsider = Some((client, h));
             }
-            Err(e) => out.fails.push(format!("the external sender cannot propose an Add: {}", err_class(&e))),
+            Err(e) => out.fails.push(format!("[C16] the external sender cannot propose an Add: {}", err_class(&e))),
         }
     }
     // external PSK every member holds
@@ -138,7 +151,7 @@ fn scenario<C: MlsConfig>(rng: &mut Rng, mk: &dyn Fn(&Setup, &Handles, mls_rs::i
         }
         match eg.propose_external_psk(ext_psk_id(&pid), vec![]) {
             Ok(m) => allowed.push(("psk", m)),
-            Err(e) => out.fails.push(format!("the external sender cannot propose an external PSK: {}", err_class(&e))),
+            Err(e) => out.fails.push(format!("[C16] the external sender cannot propose an external PSK: {}", err_class(&e))),
         }
     }
     // GroupContextExtensions: the external senders stay, (empty) required capabilities come in
@@ -152,7 +165,7 @@ fn scenario<C: MlsConfig>(rng: &mut Rng, mk: &dyn Fn(&Setup, &Handles, mls_rs::i
                 allowed.push(("gce", m));
                 new_exts = Some(l);
             }
-            Err(e) => out.fails.push(format!("the external sender cannot propose GroupContextExtensions: {}", err_class(&e))),
+            Err(e) => out.fails.push(format!("[C16] the external sender cannot propose GroupContextExtensions: {}", err_class(&e))),
         }
     }
     let committer = 0usize;
@@ -316,11 +329,11 @@ fn scenario<C: MlsConfig>(rng: &mut Rng, mk: &dyn Fn(&Setup, &Handles, mls_rs::i
             match std::panic::catch_unwind(std::panic::AssertUnwindSafe(|| eg.process_incoming_message(o.commit_message.clone()))) {
                 Ok(Ok(_)) => {
                     if eg.group_context().mls_encode_to_vec().unwrap() != ctx0 {
-                        out.fails.push("the external sender accepted the commit but holds another group context".into());
+                        out.fails.push("[C16] the external sender accepted the commit but holds another group context".into());
                     }
                 }
-                Ok(Err(e)) => out.fails.push(format!("the external sender rejects the commit over its own proposals: {}", err_class(&e))),
-                Err(_) => out.fails.push("the external sender panics on the commit over its own proposals".into()),
+                Ok(Err(e)) => out.fails.push(format!("[C16] the external sender (cache_proposals = {}) rejects the commit over its own proposals: {}", !manual_cache, err_class(&e))),
+                Err(_) => out.fails.push("[C16] the external sender panics on the commit over its own proposals".into()),
             }
             out.cover.insert(format!("commit-ok:unused={unused}"));
             out.cover.insert(format!("commit-ok:applied=[{}]", expected.join(",")));
@@ -1023,7 +1036,16 @@ pub fn run(o: &Opts) -> i32 {
     println!("rows {rows}");
     println!("cases {}", out.cases);
     println!("cover {}", out.cover.iter().cloned().collect::<Vec<_>>().join(";"));
-    println!("oracle_failures {}", out.fails.len());
-    std::fs::write(format!("{dir}/c10x.failures"), out.fails.iter().map(|f| format!("C10: {f}")).collect::<Vec<_>>().join("\n")).unwrap();
+    // failures about the external sender as an OBSERVER (it follows the commits over its own proposals) belong to C16; with
+    // `--focus C16` only those are reported, otherwise everything is
+    let focus = o.str("focus", "");
+    let rel: Vec<String> = out
+        .fails
+        .iter()
+        .filter(|f| focus != "C16" || f.starts_with("[C16] "))
+        .map(|f| if let Some(r) = f.strip_prefix("[C16] ") { format!("C16: {r}") } else { format!("C10: {f}") })
+        .collect();
+    println!("oracle_failures {}", rel.len());
+    std::fs::write(format!("{dir}/c10x.failures"), rel.join("\n")).unwrap();
     0
 }
